@@ -10,6 +10,11 @@ def run(tier, seed):
     rng = random.Random(seed)
     q = tier == 'quick'
     zmat_cases(chk, rng, 32 if q else 1600, (None, None, 'ideal'))
+    # a frequency step across the thin / thick wire limit (radius 1e-4 wavelengths): always tried
+    for f1, f2 in ((10.0, 20.0), (20.0, 10.0)):
+        chk.notes.setdefault('failing_specs', []).append(dict(
+            f=f2, pre_factor=f1 / f2, media=None, family='probe-sweep-thin-thick', tagmode='none', sources=[], loads=[], wires=[
+                gen.wire(9, [0.0, 0.0, 0.0], [0.0, 3.1, 0.4], 0.002), gen.wire(8, [0.0, 3.1, 0.4], [2.2, 5.0, 1.0], 0.002)]))
     nor = 24 if (q and not chk.broken) else (64 if q else 1600)
     run_oracle(chk, rng, nor, 'zor.c05', 'c05-oracle', (None, None, 'ideal'))
     return chk.finish()
